@@ -448,9 +448,12 @@ def align_variable_names_with_convention(
 
     typevars = set()
     for node in parsing.iter_typedefs(ast_tree):
-        assert len(node.targets) == 1
+        if len(node.targets) != 1:
+            continue
         target = node.targets[0]
-        assert isinstance(target, (ast.Name, ast.Attribute))
+        if not isinstance(target, (ast.Name, ast.Attribute)):
+            # Several type definitions in one assignment, they are named like other variables
+            continue
         typevars.add(target)
         for refnode in _get_uses_of(target, ast_tree, source):
             typevars.add(refnode)
@@ -1285,7 +1288,12 @@ def remove_redundant_else(source: str) -> str:
         ranges = [core.get_charnos(child, source) for child in node.orelse]
         start = min((s for (s, _) in ranges))
         end = max((e for (_, e) in ranges))
-        last_else = list(re.finditer("(?<![^\\n]) *else: *\\n?", source[:start]))[-1]
+        else_matches = list(re.finditer("(?<![^\\n]) *else: *\\n?", source[:start]))
+        if not else_matches:
+            # Written in another way, such as "else :"
+            continue
+
+        last_else = else_matches[-1]
         indent = len(re.findall("^ *", last_else.group())[0])
         modified_orelse = " " * indent + re.sub("(?<![^\\n])    ", "", source[start:end]).lstrip()
 
